@@ -501,8 +501,99 @@ Proof. exact (proj1 (fixed_bdd_props d p b s)). Qed.
 Lemma fixed_bdd_inv (d p : bool) (b : bdd) (s : bytes) : Ib b -> Ib (snd (fst (fixed_bdd d p b s))).
 Proof. exact (proj2 (fixed_bdd_props d p b s)). Qed.
 
+(* ------------------------------------------------------------------------------------------------ *)
+(* proposed repair of the composites: validate on copies, replay on success (Model/C18Serial.v `staged`) *)
+Section Staged.
+Variable A : Type.
+Variable rd : A -> bytes -> outcome * A * bytes.
+Hypothesis rd_total : forall a s, good (fst (fst (rd a s))).
+
+Lemma staged_total (a : A) (s : bytes) : good (fst (fst (staged rd a s))).
+Proof.
+  unfold staged. pose proof (rd_total a s) as G. destruct (rd a s) as [[o a'] t]. cbn [fst] in G.
+  destruct G as [-> | ->]; cbn [fst]; [left|right]; reflexivity.
+Qed.
+
+(* a failure leaves the WHOLE receiver as it was: metadata and bytes *)
+Lemma staged_err_unchanged (a : A) (s : bytes) (a' : A) (t : bytes) : staged rd a s = (Err, a', t) -> a' = a.
+Proof.
+  unfold staged. pose proof (rd_total a s) as G. destruct (rd a s) as [[o a''] t']. cbn [fst] in G.
+  destruct G as [-> | ->]; intros H; inversion H; reflexivity.
+Qed.
+
+Lemma staged_inv (I : A -> Prop) :
+  (forall a s, I a -> I (snd (fst (rd a s)))) -> forall a s, I a -> I (snd (fst (staged rd a s))).
+Proof.
+  intros Hi a s Ia. unfold staged. specialize (Hi a s Ia). destruct (rd a s) as [[o a'] t]. cbn [fst snd] in Hi.
+  destruct o; cbn [fst snd]; assumption.
+Qed.
+
+Lemma staged_ok (a : A) (s : bytes) (r : A) (t : bytes) : rd a s = (Ok, r, t) -> staged rd a s = (Ok, r, t).
+Proof. intros H. unfold staged. rewrite H. reflexivity. Qed.
+End Staged.
+
+Lemma staged_kseq_total (d p : bool) (k : kseq) (s : bytes) : good (fst (fst (staged_kseq d p k s))).
+Proof. exact (staged_total kseq (fixed_kseq d p) (fixed_kseq_total d p) k s). Qed.
+Lemma staged_cbk_total (d p : bool) (c : cbk) (s : bytes) : good (fst (fst (staged_cbk d p c s))).
+Proof. exact (staged_total cbk (fixed_cbk d p) (fixed_cbk_total d p) c s). Qed.
+Lemma staged_bdd_total (d p : bool) (b : bdd) (s : bytes) : good (fst (fst (staged_bdd d p b s))).
+Proof. exact (staged_total bdd (fixed_bdd d p) (fixed_bdd_total d p) b s). Qed.
+
+Lemma staged_kseq_err (d p : bool) (k : kseq) (s : bytes) (k' : kseq) (t : bytes) : staged_kseq d p k s = (Err, k', t) -> k' = k.
+Proof. exact (staged_err_unchanged kseq (fixed_kseq d p) (fixed_kseq_total d p) k s k' t). Qed.
+Lemma staged_cbk_err (d p : bool) (c : cbk) (s : bytes) (c' : cbk) (t : bytes) : staged_cbk d p c s = (Err, c', t) -> c' = c.
+Proof. exact (staged_err_unchanged cbk (fixed_cbk d p) (fixed_cbk_total d p) c s c' t). Qed.
+Lemma staged_bdd_err (d p : bool) (b : bdd) (s : bytes) (b' : bdd) (t : bytes) : staged_bdd d p b s = (Err, b', t) -> b' = b.
+Proof. exact (staged_err_unchanged bdd (fixed_bdd d p) (fixed_bdd_total d p) b s b' t). Qed.
+
+Lemma staged_kseq_inv (d p : bool) (k : kseq) (s : bytes) : Ik k -> Ik (snd (fst (staged_kseq d p k s))).
+Proof. exact (staged_inv kseq (fixed_kseq d p) Ik (fixed_kseq_inv d p) k s). Qed.
+Lemma staged_cbk_inv (d p : bool) (c : cbk) (s : bytes) : Ic c -> Ic (snd (fst (staged_cbk d p c s))).
+Proof. exact (staged_inv cbk (fixed_cbk d p) Ic (fixed_cbk_inv d p) c s). Qed.
+Lemma staged_bdd_inv (d p : bool) (b : bdd) (s : bytes) : Ib b -> Ib (snd (fst (staged_bdd d p b s))).
+Proof. exact (staged_inv bdd (fixed_bdd d p) Ib (fixed_bdd_inv d p) b s). Qed.
+
+Lemma staged_kseq_roundtrip (dbg partial : bool) (r x : kseq) (tl : bytes) :
+  kseq_fits fits_fix r x -> staged_kseq dbg partial r (write_kseq x ++ tl) = (Ok, resk_fix r x, tl).
+Proof. intros H. apply staged_ok. apply fixed_kseq_roundtrip. exact H. Qed.
+Lemma staged_cbk_roundtrip (dbg partial : bool) (r x : cbk) (tl : bytes) :
+  cbk_fits fits_fix (kseq_fits fits_fix) r x ->
+  staged_cbk dbg partial r (write_cbk x ++ tl) = (Ok, cbk_res res_fix resk_fix r x, tl).
+Proof. intros H. apply staged_ok. apply fixed_cbk_roundtrip. exact H. Qed.
+Lemma staged_bdd_roundtrip (dbg partial : bool) (r x : bdd) (tl : bytes) :
+  bdd_fits fits_fix (cbk_fits fits_fix (kseq_fits fits_fix)) r x ->
+  staged_bdd dbg partial r (write_bdd x ++ tl) = (Ok, bdd_res res_fix (cbk_res res_fix resk_fix) r x, tl).
+Proof. intros H. apply staged_ok. apply fixed_bdd_roundtrip. exact H. Qed.
+
+Lemma staged_total_all : forall (dbg partial : bool),
+  (forall (r : kseq) (s : bytes), good (fst (fst (staged_kseq dbg partial r s)))) /\
+  (forall (r : cbk) (s : bytes), good (fst (fst (staged_cbk dbg partial r s)))) /\
+  (forall (r : bdd) (s : bytes), good (fst (fst (staged_bdd dbg partial r s)))).
+Proof. exact (fun d p => conj (staged_kseq_total d p) (conj (staged_cbk_total d p) (staged_bdd_total d p))). Qed.
+
+Lemma staged_err_all : forall (dbg partial : bool),
+  (forall (r : kseq) (s : bytes) (r' : kseq) (t : bytes), staged_kseq dbg partial r s = (Err, r', t) -> r' = r) /\
+  (forall (r : cbk) (s : bytes) (r' : cbk) (t : bytes), staged_cbk dbg partial r s = (Err, r', t) -> r' = r) /\
+  (forall (r : bdd) (s : bytes) (r' : bdd) (t : bytes), staged_bdd dbg partial r s = (Err, r', t) -> r' = r).
+Proof. exact (fun d p => conj (staged_kseq_err d p) (conj (staged_cbk_err d p) (staged_bdd_err d p))). Qed.
+
+Lemma staged_inv_all : forall (dbg partial : bool),
+  (forall (r : kseq) (s : bytes), Ik r -> Ik (snd (fst (staged_kseq dbg partial r s)))) /\
+  (forall (r : cbk) (s : bytes), Ic r -> Ic (snd (fst (staged_cbk dbg partial r s)))) /\
+  (forall (r : bdd) (s : bytes), Ib r -> Ib (snd (fst (staged_bdd dbg partial r s)))).
+Proof. exact (fun d p => conj (staged_kseq_inv d p) (conj (staged_cbk_inv d p) (staged_bdd_inv d p))). Qed.
+
+Lemma staged_roundtrip_all : forall (dbg partial : bool),
+  (forall (r x : kseq) (tl : bytes), kseq_fits fits_fix r x ->
+     staged_kseq dbg partial r (write_kseq x ++ tl) = (Ok, resk_fix r x, tl)) /\
+  (forall (r x : cbk) (tl : bytes), cbk_fits fits_fix (kseq_fits fits_fix) r x ->
+     staged_cbk dbg partial r (write_cbk x ++ tl) = (Ok, cbk_res res_fix resk_fix r x, tl)) /\
+  (forall (r x : bdd) (tl : bytes), bdd_fits fits_fix (cbk_fits fits_fix (kseq_fits fits_fix)) r x ->
+     staged_bdd dbg partial r (write_bdd x ++ tl) = (Ok, bdd_res res_fix (cbk_res res_fix resk_fix) r x, tl)).
+Proof. exact (fun d p => conj (staged_kseq_roundtrip d p) (conj (staged_cbk_roundtrip d p) (staged_bdd_roundtrip d p))). Qed.
+
 (* which model is in force (the switch of Model/C18Serial.v) *)
 Lemma model_in_force :
-  reader_flat = current_flat /\ reader_wobj = current_wobj /\ reader_kseq = current_kseq /\
-  reader_cbk = current_cbk /\ reader_bdd = current_bdd /\ dist_writer = current_dist_writer.
+  reader_flat = fixed_flat /\ reader_wobj = fixed_wobj /\ reader_kseq = fixed_kseq /\
+  reader_cbk = fixed_cbk /\ reader_bdd = fixed_bdd /\ dist_writer = dist_write_fixed.
 Proof. repeat split; reflexivity. Qed.
